@@ -8,8 +8,8 @@ from vlib import Failure
 WORKLOADS = {
     'C02': dict(quick=[('generic', 14, 60, 4000), ('names', 10, 60, 4000), ('bigfile', 8, 40, 6000), ('fail', 6, 70, 1600), ('inodefull', 1, 1, 12000)],
                 thorough=[('generic', 300, 300, 4000), ('names', 200, 300, 4000), ('bigfile', 100, 150, 12000), ('generic', 100, 200, 40000), ('fail', 100, 200, 1600), ('inodefull', 2, 1, 12000)]),
-    'C04': dict(quick=[('names', 8, 60, 4000), ('recycle', 6, 50, 4000), ('generic', 6, 50, 2200), ('fail', 8, 70, 1600)],
-                thorough=[('names', 200, 300, 4000), ('recycle', 150, 200, 4000), ('generic', 150, 300, 2200), ('bigfile', 60, 150, 12000)]),
+    'C04': dict(quick=[('names', 8, 60, 4000), ('recycle', 6, 50, 4000), ('generic', 6, 50, 2200), ('fail', 8, 70, 1600), ('longnames', 5, 130, 4000)],
+                thorough=[('names', 200, 300, 4000), ('recycle', 150, 200, 4000), ('generic', 150, 300, 2200), ('bigfile', 60, 150, 12000), ('longnames', 60, 200, 4000)]),
     'C05': dict(quick=[('reclaim', 12, 60, 4000), ('reclaim', 6, 40, 9000), ('fail', 6, 70, 1600)],
                 thorough=[('reclaim', 250, 200, 4000), ('reclaim', 60, 120, 9000), ('names', 100, 200, 2200), ('fail', 100, 200, 1600)]),
     'C06': dict(quick=[('lockorder', 16, 80, 4000), ('names', 6, 60, 4000)], thorough=[('lockorder', 400, 300, 4000), ('names', 100, 300, 4000), ('stale', 100, 300, 4000)]),
@@ -18,7 +18,7 @@ WORKLOADS = {
     'C08': dict(quick=[('stale', 16, 70, 4000)], thorough=[('stale', 300, 300, 4000), ('names', 100, 300, 4000)]),
     'C09': dict(quick=[('fail', 8, 60, 1600), ('fail', 6, 60, 1570), ('fail', 4, 50, 2100), ('toobig', 4, 40, 6000)],
                 thorough=[('fail', 150, 200, 1600), ('fail', 100, 200, 1570), ('fail', 100, 200, 2100), ('fail', 60, 200, 1545), ('toobig', 60, 100, 6000)]),
-    'C10': dict(quick=[('twin', 10, 60, 4000), ('manyobj', 3, 220, 6000), ('fail', 8, 70, 1600), ('longnames', 4, 130, 4000), ('inodefull', 1, 1, 12000)], thorough=[('twin', 200, 200, 4000), ('manyobj', 30, 400, 6000), ('fail', 60, 120, 1600), ('longnames', 60, 200, 4000), ('inodefull', 2, 1, 12000)]),
+    'C10': dict(quick=[('twin', 10, 60, 4000), ('manyobj', 3, 220, 6000), ('fail', 8, 70, 1600), ('longnames', 4, 130, 4000), ('lockorder', 6, 80, 4000), ('inodefull', 1, 1, 12000)], thorough=[('lockorder', 100, 300, 4000), ('twin', 200, 200, 4000), ('manyobj', 30, 400, 6000), ('fail', 60, 120, 1600), ('longnames', 60, 200, 4000), ('inodefull', 2, 1, 12000)]),
     'C11': dict(quick=[('hostile', 16, 150, 4000), ('hostile', 6, 150, 1600)], thorough=[('hostile', 400, 500, 4000), ('hostile', 100, 500, 1600), ('hostile', 50, 300, 40000)]),
     'C12': dict(quick=[('recycle', 16, 60, 4000), ('recycle', 6, 60, 1700), ('fail', 8, 70, 1600)],
                 thorough=[('recycle', 300, 250, 4000), ('recycle', 150, 250, 1700), ('bigfile', 80, 150, 12000), ('fail', 150, 200, 1600)]),
@@ -73,7 +73,7 @@ def run(ctx, prop, ps, gen_bad):
         fs, st = seqengine.run_profile(ctx, prop, profile, nseq, nops, size, seed_off=k * 7919, survive_only=(prop == 'C11'),
                                       # C06 judges each call's own lock events and whether it returns: a disagreement with the
                                       # reference (owned by other properties) does not end the sequence
-                                      ignore_foreign=(prop in ('C06', 'C13')))
+                                      ignore_foreign=(prop in ('C06', 'C13', 'C11')))
         tot['sequences'] += st['sequences']
         tot['steps'] += st['steps']
         tot['cut'] += st['cut_short']
